@@ -310,11 +310,19 @@ Section Chunk.
         apply (f_equal (@length A)) in Es. rewrite skipn_length in Es. cbn [length] in *. lia.
   Qed.
 
+  (* the loop body over unbounded naturals (no wrap-around): what [chunk_step] is on Go's domain *)
+  Definition chunk_step_nat (slice : list A) (size : nat) (result : list (list A)) (i : nat) : list (list A) :=
+    if (i mod size =? 0)%nat then
+      if (i + size <? length slice)%nat
+      then result ++ [firstn size (skipn i slice)]
+      else result ++ [skipn i slice]
+    else result.
+
   Lemma chunk_noop (l : list A) n js acc :
-    (forall j, In j js -> (j mod n =? 0)%nat = false) -> fold_left (chunk_step l n) js acc = acc.
+    (forall j, In j js -> (j mod n =? 0)%nat = false) -> fold_left (chunk_step_nat l n) js acc = acc.
   Proof.
     revert acc; induction js as [|j js IH]; intros acc H; cbn; [reflexivity|].
-    unfold chunk_step at 2. rewrite (H j) by now left. apply IH. intros; apply H; now right.
+    unfold chunk_step_nat at 2. rewrite (H j) by now left. apply IH. intros; apply H; now right.
   Qed.
 
   Lemma mod_between a t n : (a mod n = 0)%nat -> (0 < t < n)%nat -> ((a + t) mod n =? 0)%nat = false.
@@ -331,13 +339,13 @@ Section Chunk.
 
   Lemma chunk_fold (l : list A) n : (1 <= n)%nat -> forall m a acc,
     (length l - a <= m)%nat -> (a mod n = 0)%nat -> (a <= length l)%nat ->
-    fold_left (chunk_step l n) (seq a (length l - a)) acc =
+    fold_left (chunk_step_nat l n) (seq a (length l - a)) acc =
     acc ++ chunk_ref (length l - a) n (skipn a l).
   Proof.
     intros Hn. induction m as [|m IH]; intros a acc Hm Hmod Ha.
     - replace (length l - a)%nat with 0%nat by lia. cbn. now rewrite app_nil_r.
     - destruct (length l - a)%nat as [|d] eqn:Ed; [cbn; now rewrite app_nil_r|].
-      cbn [seq fold_left]. unfold chunk_step at 2.
+      cbn [seq fold_left]. unfold chunk_step_nat at 2.
       replace (a mod n =? 0)%nat with true by (symmetry; now apply Nat.eqb_eq).
       assert (Hsk : length (skipn a l) = S d) by (rewrite skipn_length; lia).
       destruct (skipn a l) as [|x t] eqn:Es; [discriminate|]. cbn [chunk_ref].
@@ -360,32 +368,148 @@ Section Chunk.
           apply mod_between; [exact Hmod | lia].
   Qed.
 
+  Lemma wrap64_id z : min_int64 <= z <= max_int64 -> wrap64 z = z.
+  Proof. unfold wrap64, min_int64, max_int64. intros H. rewrite Z.mod_small; lia. Qed.
+
+  Lemma wrap64_high z : 9223372036854775808 <= z < 27670116110564327424 -> wrap64 z = z - 18446744073709551616.
+  Proof.
+    unfold wrap64. intros H.
+    rewrite <- (Z.mod_unique (z + 9223372036854775808) 18446744073709551616 1 (z - 9223372036854775808)); lia.
+  Qed.
+
+  (* on Go's domain — size an int, len(slice) <= 2^62 — the wrapping body is the plain one *)
+  Lemma chunk_step_64 (l : list A) size r i :
+    1 <= size <= max_int64 -> 2 * Z.of_nat (length l) <= max_int64 -> (i < length l)%nat ->
+    chunk_step l size (Ok r) i = Ok (chunk_step_nat l (Z.to_nat size) r i).
+  Proof.
+    intros Hs Hl Hi. unfold chunk_step, chunk_step_nat.
+    assert (Hmod : (Z.of_nat i mod size =? 0) = (i mod Z.to_nat size =? 0)%nat).
+    { apply eq_iff_eq_true. rewrite Z.eqb_eq, Nat.eqb_eq.
+      replace size with (Z.of_nat (Z.to_nat size)) at 1 by lia.
+      rewrite <- Nat2Z.inj_mod. lia. }
+    rewrite <- Hmod. destruct (Z.of_nat i mod size =? 0) eqn:E; [|reflexivity].
+    apply Z.eqb_eq in E.
+    assert (Hi0 : Z.of_nat i = 0 \/ size <= Z.of_nat i).
+    { destruct (Z_lt_ge_dec (Z.of_nat i) size) as [Hlt|Hge]; [left|right; lia].
+      rewrite Z.mod_small in E by lia. exact E. }
+    unfold max_int64 in *.
+    rewrite wrap64_id by (unfold min_int64, max_int64; lia).
+    replace (Z.of_nat i + size <? Z.of_nat (length l)) with (i + Z.to_nat size <? length l)%nat
+      by (apply eq_iff_eq_true; rewrite Z.ltb_lt, Nat.ltb_lt; lia).
+    destruct (i + Z.to_nat size <? length l)%nat; [|reflexivity].
+    replace (Z.of_nat i <=? Z.of_nat i + size) with true by (symmetry; apply Z.leb_le; lia).
+    now replace (Z.to_nat (Z.of_nat i + size - Z.of_nat i)) with (Z.to_nat size) by lia.
+  Qed.
+
+  Lemma chunk_fold_64 (l : list A) size : 1 <= size <= max_int64 -> 2 * Z.of_nat (length l) <= max_int64 ->
+    forall js acc, (forall j, In j js -> (j < length l)%nat) ->
+    fold_left (chunk_step l size) js (Ok acc) = Ok (fold_left (chunk_step_nat l (Z.to_nat size)) js acc).
+  Proof.
+    intros Hs Hl. induction js as [|j js IH]; intros acc Hj; cbn [fold_left]; [reflexivity|].
+    rewrite chunk_step_64 by (auto; apply Hj; now left). apply IH. intros; apply Hj; now right.
+  Qed.
+
+  (* [size] an int, len(l) <= 2^62 (true of every slice whose loop can terminate) *)
   Lemma chunk_spec (l : list A) size :
+    size <= max_int64 -> 2 * Z.of_nat (length l) <= max_int64 ->
     chunk l size = if size <=? 0 then Panic else Ok (chunk_ref (length l) (Z.to_nat size) l).
   Proof.
-    unfold chunk. destruct (size <=? 0) eqn:E; [reflexivity|]. apply Z.leb_gt in E. f_equal.
+    intros Hs Hl. unfold chunk. destruct (size <=? 0) eqn:E; [reflexivity|]. apply Z.leb_gt in E.
+    rewrite chunk_fold_64 by (try lia; intros j Hj; apply in_seq in Hj; lia). f_equal.
     pose proof (chunk_fold l (Z.to_nat size) ltac:(lia) (length l) 0%nat [] ltac:(lia)) as H.
     rewrite Nat.sub_0_r in H. cbn [app skipn] in H. apply H; [|lia].
     apply Nat.mod_0_l. lia.
   Qed.
 
-  (* ---------- Drop ---------- *)
-
-  Lemma drop_front (l : list A) n : 0 <= n -> drop l n = skipn (Z.to_nat n) l.
+  (* cutting at least len(l) at a time gives the same chunks whatever the amount *)
+  Lemma chunk_ref_big f n n' (l : list A) :
+    (length l <= n)%nat -> (length l <= n')%nat -> chunk_ref f n l = chunk_ref f n' l.
   Proof.
-    intros Hn. unfold drop. destruct (Z.abs n <? Z.of_nat (length l)) eqn:E.
-    - destruct (n >? 0) eqn:G; [reflexivity|].
-      assert (n = 0) as -> by (rewrite Z.gtb_ltb in G; apply Z.ltb_ge in G; lia).
-      cbn. now rewrite Nat.sub_0_r, firstn_all.
-    - apply Z.ltb_ge in E. symmetry. apply skipn_all2. lia.
+    intros H H'. destruct f as [|f]; [reflexivity|]. destruct l as [|x l]; [reflexivity|].
+    cbn [chunk_ref]. rewrite !firstn_all2, !skipn_all2 by assumption. now rewrite !chunk_ref_nil.
   Qed.
 
-  Lemma drop_back (l : list A) n : n <= 0 -> drop l n = firstn (length l - Z.to_nat (- n)) l.
+  Lemma chunk_is_ref (l : list A) size :
+    size <= max_int64 -> 2 * Z.of_nat (length l) <= max_int64 -> chunk l size = chunk_spec_ref l size.
   Proof.
-    intros Hn. unfold drop. destruct (Z.abs n <? Z.of_nat (length l)) eqn:E.
-    - replace (n >? 0) with false by (symmetry; rewrite Z.gtb_ltb; apply Z.ltb_ge; lia).
-      now replace (Z.abs n) with (- n) by lia.
-    - apply Z.ltb_ge in E. replace (length l - Z.to_nat (- n))%nat with 0%nat by lia. reflexivity.
+    intros Hs Hl. rewrite chunk_spec by assumption. unfold chunk_spec_ref.
+    destruct (size <=? 0) eqn:E; [reflexivity|]. apply Z.leb_gt in E. f_equal.
+    destruct (Z_le_gt_dec size (Z.max 1 (Z.of_nat (length l)))) as [H|H].
+    - now rewrite Z.min_l by lia.
+    - rewrite Z.min_r by lia. apply chunk_ref_big; lia.
+  Qed.
+
+  (* ---------- Drop ---------- *)
+
+  Lemma abs64_min : abs64 min_int64 = min_int64.
+  Proof. reflexivity. Qed.
+
+  (* the repaired Drop, for EVERY n; len(l) an int *)
+  Lemma drop_front (l : list A) n :
+    0 <= n -> Z.of_nat (length l) <= max_int64 -> drop l n = Ok (skipn (Z.to_nat n) l).
+  Proof.
+    intros Hn Hl. unfold drop. unfold max_int64 in Hl.
+    destruct (Z.eq_dec n 0) as [->|Hn0].
+    - cbn [Z.gtb Z.compare andb Z.leb]. rewrite Z.add_0_r.
+      destruct (length l) as [|k] eqn:Ek.
+      + cbn. destruct l; [reflexivity|discriminate].
+      + rewrite !wrap64_id by (unfold min_int64, max_int64; lia).
+        replace (0 >? - Z.of_nat (S k)) with true by (symmetry; rewrite Z.gtb_ltb; apply Z.ltb_lt; lia).
+        replace ((0 <=? Z.of_nat (S k)) && (Z.of_nat (S k) <=? Z.of_nat (S k))) with true
+          by (symmetry; apply andb_true_iff; split; apply Z.leb_le; lia).
+        rewrite Nat2Z.id, <- Ek. cbn. now rewrite firstn_all.
+    - replace (n >? 0) with true by (symmetry; rewrite Z.gtb_ltb; apply Z.ltb_lt; lia).
+      replace (n <=? 0) with false by (symmetry; apply Z.leb_gt; lia). cbn [andb].
+      destruct (n <? Z.of_nat (length l)) eqn:E; [reflexivity|].
+      apply Z.ltb_ge in E. f_equal. symmetry. apply skipn_all2. lia.
+  Qed.
+
+  Lemma drop_back (l : list A) n :
+    n <= 0 -> Z.of_nat (length l) <= max_int64 ->
+    drop l n = Ok (firstn (length l - Z.to_nat (- n)) l).
+  Proof.
+    intros Hn Hl. destruct (Z.eq_dec n 0) as [->|Hn0].
+    { rewrite drop_front by lia. cbn. now rewrite Nat.sub_0_r, firstn_all. }
+    unfold drop. unfold max_int64 in Hl.
+    replace (n >? 0) with false by (symmetry; rewrite Z.gtb_ltb; apply Z.ltb_ge; lia).
+    replace (n <=? 0) with true by (symmetry; apply Z.leb_le; lia). cbn [andb].
+    rewrite (wrap64_id (- Z.of_nat (length l))) by (unfold min_int64, max_int64; lia).
+    destruct (n >? - Z.of_nat (length l)) eqn:E.
+    - rewrite Z.gtb_ltb in E. apply Z.ltb_lt in E.
+      rewrite wrap64_id by (unfold min_int64, max_int64; lia).
+      replace ((0 <=? Z.of_nat (length l) + n) && (Z.of_nat (length l) + n <=? Z.of_nat (length l))) with true
+        by (symmetry; apply andb_true_iff; split; apply Z.leb_le; lia).
+      f_equal. f_equal. lia.
+    - rewrite Z.gtb_ltb in E. apply Z.ltb_ge in E.
+      replace (length l - Z.to_nat (- n))%nat with 0%nat by lia. reflexivity.
+  Qed.
+
+  (* the shipped code before the repair: the one int for which it failed.
+     Abs(MinInt) = MinInt < len, then slice[:len-MinInt] *)
+  Lemma drop_unrepaired_min_int (l : list A) :
+    Z.of_nat (length l) <= max_int64 -> drop_unrepaired l min_int64 = Panic.
+  Proof.
+    intros Hl. unfold drop_unrepaired. rewrite abs64_min. unfold min_int64, max_int64 in *.
+    replace (-9223372036854775808 <? Z.of_nat (length l)) with true by (symmetry; apply Z.ltb_lt; lia).
+    cbn [Z.gtb Z.compare]. rewrite wrap64_high by lia.
+    replace (0 <=? Z.of_nat (length l) - -9223372036854775808 - 18446744073709551616) with false
+      by (symmetry; apply Z.leb_gt; lia).
+    reflexivity.
+  Qed.
+
+  Lemma drop_ref_spec (l : list A) n :
+    (0 <= n -> drop_ref l n = skipn (Z.to_nat n) l) /\
+    (n <= 0 -> drop_ref l n = firstn (length l - Z.to_nat (- n)) l).
+  Proof.
+    unfold drop_ref. split; intros Hn.
+    - replace (0 <=? n) with true by (symmetry; apply Z.leb_le; lia).
+      destruct (n <? Z.of_nat (length l)) eqn:E; [reflexivity|].
+      apply Z.ltb_ge in E. symmetry. apply skipn_all2. lia.
+    - destruct (Z.eq_dec n 0) as [->|Hn0].
+      + cbn. rewrite Nat.sub_0_r, firstn_all. now destruct l.
+      + replace (0 <=? n) with false by (symmetry; apply Z.leb_gt; lia).
+        destruct (- n <? Z.of_nat (length l)) eqn:E; [reflexivity|].
+        apply Z.ltb_ge in E. replace (length l - Z.to_nat (- n))%nat with 0%nat by lia. reflexivity.
   Qed.
 
 End Chunk.
@@ -788,3 +912,283 @@ Section Shuffle.
   Proof. unfold shuffle. apply shuffle_loop_perm. lia. Qed.
 
 End Shuffle.
+
+(* ================= session 3 (audit) ================= *)
+
+(* ---------- the loop forms at index level ---------- *)
+
+Definition fbody {A St : Type} (body : St -> nat -> A -> St) : St -> nat * A -> St :=
+  fun st iv => body st (fst iv) (snd iv).
+
+Lemma combine_app {B C} (a a' : list B) (b b' : list C) :
+  length a = length b -> combine (a ++ a') (b ++ b') = combine a b ++ combine a' b'.
+Proof.
+  revert b; induction a as [|x a IH]; intros [|y b] H; cbn in *; try discriminate; [reflexivity|].
+  f_equal. apply IH. lia.
+Qed.
+
+Lemma map_snd_combine_seq {A} (l : list A) a : map snd (combine (seq a (length l)) l) = l.
+Proof. revert a; induction l as [|x l IH]; intros a; cbn; [reflexivity|]. now rewrite IH. Qed.
+
+Lemma map_fst_combine_seq {A} (l : list A) a : map fst (combine (seq a (length l)) l) = seq a (length l).
+Proof. revert a; induction l as [|x l IH]; intros a; cbn; [reflexivity|]. now rewrite IH. Qed.
+
+Lemma fold_log {B C} (g : B -> C) (L : list B) acc :
+  fold_left (fun log x => log ++ [g x]) L acc = acc ++ map g L.
+Proof.
+  revert acc; induction L as [|x L IH]; intros acc; cbn; [now rewrite app_nil_r|].
+  rewrite IH. now rewrite <- app_assoc.
+Qed.
+
+Section Loops.
+  Context {A St : Type} (body : St -> nat -> A -> St).
+
+  Lemma range_loop_gen : forall (rest pre : list A) fuel st,
+    (length rest <= fuel)%nat ->
+    range_loop body fuel (pre ++ rest) (length pre) st =
+    Fin (fold_left (fbody body) (combine (seq (length pre) (length rest)) rest) st).
+  Proof.
+    induction rest as [|x rest IH]; intros pre fuel st Hf.
+    - rewrite app_nil_r. destruct fuel; cbn [range_loop]; rewrite Nat.ltb_irrefl; reflexivity.
+    - destruct fuel as [|f]; [cbn in Hf; lia|]. cbn [range_loop].
+      replace (length pre <? length (pre ++ x :: rest))%nat with true
+        by (symmetry; apply Nat.ltb_lt; rewrite app_length; cbn; lia).
+      rewrite nth_error_app_here.
+      replace (pre ++ x :: rest) with ((pre ++ [x]) ++ rest) by (now rewrite <- app_assoc).
+      replace (S (length pre)) with (length (pre ++ [x])) by (rewrite app_length; cbn; lia).
+      rewrite IH by (cbn in Hf; lia). cbn [length seq combine fold_left]. unfold fbody at 3. cbn [fst snd].
+      rewrite app_length. cbn [length]. now rewrite Nat.add_1_r.
+  Qed.
+
+  Lemma range_loop_spec (l : list A) st :
+    range_loop body (length l) l 0 st = Fin (fold_left (fbody body) (indexed l) st).
+  Proof. exact (range_loop_gen l [] (length l) st (le_n _)). Qed.
+
+  Lemma firstn_S_nth (l : list A) i v : nth_error l i = Some v -> firstn (S i) l = firstn i l ++ [v].
+  Proof.
+    revert i; induction l as [|x l IH]; intros [|i] H; cbn in *; try discriminate.
+    - now injection H as ->.
+    - f_equal. now apply IH.
+  Qed.
+
+  Lemma down_loop_gen : forall n (l : list A) st, (n <= length l)%nat ->
+    down_loop body n l st = Fin (fold_left (fbody body) (rev (combine (seq 0 n) (firstn n l))) st).
+  Proof.
+    induction n as [|i IH]; intros l st Hn; [reflexivity|].
+    cbn [down_loop]. destruct (nth_error l i) as [v|] eqn:E.
+    2:{ apply nth_error_None in E. lia. }
+    rewrite IH by lia. rewrite seq_S, (firstn_S_nth l i v E). cbn [plus].
+    rewrite combine_app by (rewrite seq_length, firstn_length; lia).
+    cbn [combine]. rewrite rev_app_distr. reflexivity.
+  Qed.
+
+  Lemma down_loop_spec (l : list A) st :
+    down_loop body (length l) l st = Fin (fold_left (fbody body) (rev (indexed l)) st).
+  Proof. rewrite down_loop_gen by lia. now rewrite firstn_all. Qed.
+End Loops.
+
+Section Iterators.
+  Context {A : Type}.
+
+  Lemma fold_indexed_ignore {St} (g : St -> A -> St) (l : list A) st :
+    fold_left (fbody (fun s _ v => g s v)) (indexed l) st = fold_left g l st /\
+    fold_left (fbody (fun s _ v => g s v)) (rev (indexed l)) st = fold_left g (rev l) st.
+  Proof.
+    unfold fbody, indexed. cbn [fst snd]. split.
+    - rewrite <- (fold_left_map g snd). now rewrite map_snd_combine_seq.
+    - rewrite <- (fold_left_map g snd). now rewrite map_rev, map_snd_combine_seq.
+  Qed.
+
+  Lemma for_each_cb_spec {St} (cb : St -> A -> St) l s0 :
+    for_each_cb cb l s0 = Fin (fold_left cb l s0).
+  Proof. unfold for_each_cb. rewrite range_loop_spec. f_equal. apply fold_indexed_ignore. Qed.
+
+  Lemma for_each_right_cb_spec {St} (cb : St -> A -> St) l s0 :
+    for_each_right_cb cb l s0 = Fin (fold_left cb (rev l) s0).
+  Proof. unfold for_each_right_cb. rewrite down_loop_spec. f_equal. apply fold_indexed_ignore. Qed.
+
+  Lemma reduce_cb_spec {St B} (cb : St -> A -> B -> St * B) l s0 init :
+    reduce_cb cb l s0 init = Fin (fold_left (fun st v => cb (fst st) v (snd st)) l (s0, init)).
+  Proof.
+    unfold reduce_cb. rewrite range_loop_spec. f_equal.
+    apply (fold_indexed_ignore (fun st v => cb (fst st) v (snd st))).
+  Qed.
+
+  Lemma drop_right_while_idx_spec (p : A -> bool) l :
+    drop_right_while_idx p l = Fin (drop_right_while p l).
+  Proof.
+    unfold drop_right_while_idx, drop_right_while. rewrite down_loop_spec. f_equal.
+    apply (fold_indexed_ignore (fun r v => if negb (p v) then r ++ [v] else r)).
+  Qed.
+
+  (* Map: the state is (callback state, result slice); position idx is written at step idx *)
+  Definition map_step {St B} (cb : St -> A -> St * B) (st : St * list B) (v : A) : St * list B :=
+    let (s', b) := cb (fst st) v in (s', snd st ++ [b]).
+
+  Lemma map_cb_gen {St B} (cb : St -> A -> St * B) (zero : B) : forall (rest pre : list A) s imgs,
+    length imgs = length pre ->
+    fold_left (fbody (fun (st : St * list B) idx v =>
+                        let (s', b) := cb (fst st) v in (s', set_nth (snd st) idx b)))
+              (combine (seq (length pre) (length rest)) rest) (s, imgs ++ repeat zero (length rest)) =
+    fold_left (map_step cb) rest (s, imgs).
+  Proof.
+    induction rest as [|x rest IH]; intros pre s imgs Hl; cbn [length seq combine fold_left repeat].
+    - now rewrite app_nil_r.
+    - unfold fbody at 2. cbn [fst snd]. unfold map_step at 2. cbn [fst snd].
+      destruct (cb s x) as [s' b]. rewrite <- Hl, set_nth_app_here.
+      replace (imgs ++ b :: repeat zero (length rest)) with ((imgs ++ [b]) ++ repeat zero (length rest))
+        by (now rewrite <- app_assoc).
+      replace (S (length imgs)) with (length (pre ++ [x])) by (rewrite app_length; cbn; lia).
+      apply IH. rewrite !app_length. cbn. lia.
+  Qed.
+
+  Lemma map_cb_spec {St B} (cb : St -> A -> St * B) (zero : B) l s0 :
+    map_cb cb zero l s0 = Fin (fold_left (map_step cb) l (s0, [])).
+  Proof.
+    unfold map_cb. rewrite range_loop_spec. f_equal. unfold indexed.
+    exact (map_cb_gen cb zero l [] s0 [] eq_refl).
+  Qed.
+
+  (* what a logging callback sees *)
+  Lemma map_step_log {B} (fn : A -> B) l lg out :
+    fold_left (map_step (fun (log : list A) v => (log ++ [v], fn v))) l (lg, out) = (lg ++ l, out ++ map fn l).
+  Proof.
+    revert lg out; induction l as [|x l IH]; intros lg out; cbn [fold_left map].
+    - now rewrite !app_nil_r.
+    - unfold map_step at 2. cbn [fst snd]. rewrite IH. now rewrite <- !app_assoc.
+  Qed.
+
+  (* the indices visited *)
+  Lemma range_loop_indices (l : list A) :
+    range_loop (fun (log : list nat) i _ => log ++ [i]) (length l) l 0 [] = Fin (seq 0 (length l)).
+  Proof.
+    rewrite range_loop_spec. f_equal. unfold fbody, indexed. cbn [fst snd].
+    rewrite (fold_log fst). cbn. apply map_fst_combine_seq.
+  Qed.
+
+  Lemma down_loop_indices (l : list A) :
+    down_loop (fun (log : list nat) i _ => log ++ [i]) (length l) l [] = Fin (rev (seq 0 (length l))).
+  Proof.
+    rewrite down_loop_spec. f_equal. unfold fbody, indexed. cbn [fst snd].
+    rewrite (fold_log fst). cbn. now rewrite map_rev, map_fst_combine_seq.
+  Qed.
+
+  (* ---------- DropWhile versus the textbook drop-while ---------- *)
+
+  Lemma filter_drop_prefix_while (p : A -> bool) l :
+    filter (fun x => negb (p x)) (drop_prefix_while p l) = filter (fun x => negb (p x)) l.
+  Proof.
+    induction l as [|x l IH]; [reflexivity|]. cbn [drop_prefix_while].
+    destruct (p x) eqn:E; [|reflexivity]. cbn [filter]. now rewrite E.
+  Qed.
+
+  Lemma filter_id_iff (f : A -> bool) L : filter f L = L <-> Forall (fun x => f x = true) L.
+  Proof.
+    induction L as [|x L IH]; [split; constructor|]. cbn. destruct (f x) eqn:E.
+    - split.
+      + intros H. injection H as H. constructor; [exact E | now apply IH].
+      + intros H. inversion H; subst. f_equal. now apply IH.
+    - split.
+      + intros H. assert (Hin : In x (filter f L)) by (rewrite H; now left).
+        apply filter_In in Hin as [_ Hx]. congruence.
+      + intros H. inversion H; subst. congruence.
+  Qed.
+
+  Lemma drop_while_vs_prefix (p : A -> bool) l :
+    drop_while p l = filter (fun x => negb (p x)) (drop_prefix_while p l) /\
+    subseq (drop_while p l) (drop_prefix_while p l) /\
+    (drop_while p l = drop_prefix_while p l <->
+     Forall (fun x => p x = false) (drop_prefix_while p l)).
+  Proof.
+    rewrite drop_while_spec, <- filter_drop_prefix_while.
+    split; [reflexivity|]. split; [apply subseq_filter|].
+    rewrite filter_id_iff. split; intros H; eapply Forall_impl; try exact H; cbn; intros a Ha.
+    - now apply negb_true_iff.
+    - now apply negb_true_iff.
+  Qed.
+End Iterators.
+
+(* ---------- ReverseStr on the string, for any decoder/encoder pair ---------- *)
+
+Section Codec.
+  Context {A B : Type} (dec : list B -> list A) (enc : list A -> list B) (valid : A -> Prop).
+  Hypothesis dec_enc : forall rs, Forall valid rs -> dec (enc rs) = rs.
+  Hypothesis dec_valid : forall s, Forall valid (dec s).
+
+  Lemma reverse_str_via_spec s : reverse_str_via dec enc s = Fin (enc (rev (dec s))).
+  Proof. unfold reverse_str_via, reverse_str. now rewrite reverse_spec. Qed.
+
+  Lemma reverse_str_via_twice s :
+    exists r, reverse_str_via dec enc s = Fin r /\ reverse_str_via dec enc r = Fin (enc (dec s)).
+  Proof.
+    exists (enc (rev (dec s))). split; [apply reverse_str_via_spec|].
+    rewrite reverse_str_via_spec, dec_enc by (apply Forall_rev, dec_valid).
+    now rewrite rev_involutive.
+  Qed.
+End Codec.
+
+(* ---------- Chunk: the number of chunks ---------- *)
+
+Lemma concat_full_length {A} (full : list (list A)) n :
+  Forall (fun c => length c = n) full -> length (concat full) = (n * length full)%nat.
+Proof.
+  induction 1 as [|c full Hc _ IH]; cbn; [lia|]. rewrite app_length, IH, Hc. lia.
+Qed.
+
+Lemma chunk_count {A} (l : list A) n : (1 <= n)%nat ->
+  length (chunk_ref (length l) n l) = ((length l + n - 1) / n)%nat.
+Proof.
+  intros Hn. destruct l as [|x l0] eqn:El.
+  - rewrite chunk_ref_nil. cbn. symmetry. apply Nat.div_small. lia.
+  - rewrite <- El. assert (Hne : l <> []) by (rewrite El; discriminate).
+    destruct (chunk_ref_shape n Hn (length l) l (le_n _) Hne) as (full & lc & E & Hf & Hl).
+    pose proof (chunk_ref_concat n Hn (length l) l (le_n _)) as Hc.
+    rewrite E in Hc |- *. rewrite app_length. cbn [length].
+    assert (Hlen : length l = (n * length full + length lc)%nat).
+    { rewrite <- Hc at 1. rewrite concat_app, app_length. cbn. rewrite app_nil_r.
+      now rewrite (concat_full_length full n Hf). }
+    rewrite Hlen.
+    apply (Nat.div_unique _ n (length full + 1) (length lc - 1)); lia.
+Qed.
+
+(* ---------- the model functions equal the references of the property checker ---------- *)
+
+Section Refs.
+  Context {A : Type} (zero : A).
+
+  Lemma is_square_iff (m : list (list A)) : is_square m = true <-> square (length m) m.
+  Proof.
+    unfold is_square, square. rewrite forallb_forall, Forall_forall. split.
+    - intros H. split; [reflexivity|]. intros row Hin. now apply Nat.eqb_eq, H.
+    - intros [_ H] row Hin. now apply Nat.eqb_eq, H.
+  Qed.
+
+  Lemma is_square_shape_ok (m : list (list A)) : shape_ok m = is_square m.
+  Proof. apply eq_iff_eq_true. now rewrite shape_ok_iff, is_square_iff. Qed.
+
+  Lemma zip_is_ref (m : list (list A)) :
+    zip zero m = transpose_ref zero m /\ unzip zero m = transpose_ref zero m.
+  Proof. rewrite zip_spec, unzip_spec. unfold transpose_ref. now rewrite is_square_shape_ok. Qed.
+
+  Lemma round_trip_is_ref (m : list (list A)) :
+    match zip zero m with Ok r => unzip zero r | Err k => Err k | Panic => Panic end = round_trip_ref m /\
+    match unzip zero m with Ok r => zip zero r | Err k => Err k | Panic => Panic end = round_trip_ref m.
+  Proof.
+    destruct (zip_is_ref m) as [-> ->]. unfold transpose_ref, round_trip_ref.
+    destruct (is_square m) eqn:E; [|split; reflexivity].
+    apply is_square_iff in E.
+    assert (Ht : square (length m) (transpose zero m)) by now apply transpose_square.
+    assert (Hl : length (transpose zero m) = length m) by (destruct Ht; auto).
+    assert (Hsq : is_square (transpose zero m) = true) by (apply is_square_iff; now rewrite Hl).
+    destruct (zip_is_ref (transpose zero m)) as [-> ->]. unfold transpose_ref. rewrite Hsq.
+    rewrite (transpose_involutive zero (length m)) by exact E. now split.
+  Qed.
+
+  Lemma drop_is_ref (l : list A) n :
+    Z.of_nat (length l) <= max_int64 -> drop l n = Ok (drop_ref l n).
+  Proof.
+    intros Hl. destruct (Z_le_gt_dec 0 n) as [H|H].
+    - rewrite drop_front by lia. f_equal. symmetry. now apply drop_ref_spec.
+    - rewrite drop_back by lia. f_equal. symmetry. apply drop_ref_spec. lia.
+  Qed.
+End Refs.
